@@ -105,23 +105,6 @@ def StoresAgreeFull : Prop :=
 
 /-! ### Layers in one bolt file -/
 
-/-- what a caller can do to one layer of the shared database -/
-inductive BoltOp where
-  | openFs (fs : Nat) (t : Tree)
-  | closeFs (fs : Nat)
-  /-- any read-only call (`GetAttr`, `GetChild`, `ForeachChild`, `OpenFile`, ...) -/
-  | query (fs : Nat)
-
-def BoltOp.target : BoltOp → Nat
-  | .openFs fs _ => fs
-  | .closeFs fs => fs
-  | .query fs => fs
-
-def applyOp (b : Bolt) : BoltOp → Bolt
-  | .openFs fs t => b.openFs fs t
-  | .closeFs fs => b.closeFs fs
-  | .query _ => b
-
 /-- Operations on other layers leave layer `b`'s tree exactly as it was: several layers opened,
 queried and closed in any order in one database do not influence each other. -/
 theorem layers_isolated (s : Bolt) (ops : List BoltOp) (b : Nat)
